@@ -349,3 +349,14 @@ pub async fn listen_as(epmd: &FakeEpmd, short_name: &str) -> TcpListener {
     epmd.add_node(short_name, l.local_addr().unwrap().port());
     l
 }
+
+/// like `listen_as`, with a small receive buffer on the listening socket (inherited by the accepted connection): a peer
+/// that stops reading then stalls its sender after a few kilobytes instead of a few megabytes (added for C07)
+pub async fn listen_as_rcvbuf(epmd: &FakeEpmd, short_name: &str, bytes: u32) -> TcpListener {
+    let sock = tokio::net::TcpSocket::new_v4().unwrap();
+    let _ = sock.set_recv_buffer_size(bytes);
+    sock.bind("127.0.0.1:0".parse().unwrap()).unwrap();
+    let l = sock.listen(16).unwrap();
+    epmd.add_node(short_name, l.local_addr().unwrap().port());
+    l
+}
